@@ -673,6 +673,43 @@ pub fn generate(rng: &mut Rng, tier: Tier, emit: &mut dyn FnMut(String)) {
     }
     emit("ptoken 0".to_owned());
 
+    // batches: the routing token is that of the FIRST row under the FIRST statement (peek_first_token)
+    for i in 0..(1200 * scale) {
+        let nst = rng.range(1, 4) as usize;
+        let mut stmts: Vec<String> = Vec::new();
+        let mut rows: Vec<String> = Vec::new();
+        for j in 0..nst {
+            // the first statement is mostly prepared; others vary freely
+            let unprepared = if j == 0 { rng.chance(1, 8) } else { rng.chance(1, 3) };
+            let m = rng.range(1, 6) as usize;
+            if unprepared {
+                stmts.push("U".to_owned());
+            } else {
+                let k = rng.range(1, m.min(3) as i64) as usize;
+                let mut markers: Vec<usize> = (0..m).collect();
+                rng.shuffle(&mut markers);
+                let mut wire: Vec<usize> = markers[..k].to_vec();
+                if j == 0 && i % 50 == 7 {
+                    wire[0] = m + 1; // a key marker beyond the row
+                }
+                stmts.push(format!("P{}:{}:{}", rng.chance(1, 8) as u8, m, nat_list(&wire)));
+            }
+            // a row for this statement: usually of its width, values tagged by statement so that rows differ
+            let width = if j == 0 && i % 40 == 3 { m + 1 } else { m };
+            let vals: Vec<String> = (0..width)
+                .map(|c| if rng.chance(1, 25) { "N".to_owned() } else { gen_val(rng, (0x80 + 16 * j + c) as u8) })
+                .collect();
+            rows.push(if vals.is_empty() { ".".to_owned() } else { vals.join(",") });
+        }
+        let rows_s = match i % 30 {
+            11 => "none".to_owned(),                    // no values at all
+            12 => rows[..1].join(";"),                   // fewer rows than statements
+            _ => rows.join(";"),
+        };
+        emit(format!("btoken {} {}", stmts.join(";"), rows_s));
+    }
+    emit("btoken none none".to_owned());
+
     // session level: Session::prepare / ClusterState::compute_token against the mock cluster, compared with the model
     crate::e2e::partitioner::generate_sesspart(rng, tier, emit);
 }
@@ -932,6 +969,119 @@ pub fn run(case: &str, ctx: &mut Ctx) -> String {
             match res {
                 Ok(t) => format!("ok {}", t),
                 Err(n) => format!("err tooLong {}", n),
+            }
+        }
+        ("btoken", 3) => {
+            // stmts: `;`-separated `U` | `P<cdc>:<ncols>:<wire>`; rows: `;`-separated comma lists (`.` = empty row)
+            use scylla::statement::batch::Batch;
+            let mut batch = Batch::default();
+            let mut first: Option<(bool, scylla::statement::prepared::PreparedStatement)> = None;
+            if w[1] != "none" {
+                for (i, d) in w[1].split(';').enumerate() {
+                    if d == "U" {
+                        batch.append_statement(scylla::statement::Statement::new("INSERT INTO ks.t (a) VALUES (?)"));
+                    } else if let Some(rest) = d.strip_prefix('P') {
+                        let parts: Vec<&str> = rest.split(':').collect();
+                        if parts.len() != 3 || (parts[0] != "0" && parts[0] != "1") {
+                            return "bad-case".into();
+                        }
+                        let (Ok(ncols), Some(wire)) = (parts[1].parse::<usize>(), parse_wire(parts[2])) else {
+                            return "bad-case".into();
+                        };
+                        let prepared = match deser_prepared(ncols, &wire) {
+                            Ok(p) => p,
+                            Err(e) => return e,
+                        };
+                        let ps = hooks::statement_from_prepared(prepared, parts[0] == "1");
+                        if i == 0 {
+                            first = Some((parts[0] == "1", ps.clone()));
+                        }
+                        batch.append_statement(ps);
+                    } else {
+                        return "bad-case".into();
+                    }
+                }
+            }
+            let mut rows: Vec<Vec<Val>> = Vec::new();
+            if w[2] != "none" {
+                for r in w[2].split(';') {
+                    if r == "." {
+                        rows.push(vec![]);
+                    } else {
+                        let Some(vs) = r.split(',').map(parse_val).collect::<Option<Vec<Val>>>() else {
+                            return "bad-case".into();
+                        };
+                        rows.push(vs);
+                    }
+                }
+            }
+            let bound: Vec<Vec<MaybeUnset<Option<Vec<u8>>>>> = rows.iter().map(|r| bind(r)).collect();
+            let got = catch_unwind(AssertUnwindSafe(|| hooks::batch_first_token(&batch, &bound)));
+            use scylla::errors::{BadQuery, ExecutionError};
+            let shown = match &got {
+                Ok(Ok(Some(t))) => format!("ok:{}", t.value()),
+                Ok(Ok(None)) => "none".to_owned(),
+                Ok(Err(ExecutionError::BadQuery(BadQuery::SerializationError(_)))) => "err:serialization".to_owned(),
+                Ok(Err(ExecutionError::BadQuery(BadQuery::PartitionKeyExtraction))) => "err:pkExtraction".to_owned(),
+                Ok(Err(ExecutionError::BadQuery(BadQuery::ValuesTooLongForKey(n, _)))) => format!("err:tooLong:{}", n),
+                Ok(Err(_)) => "err:other".to_owned(),
+                Err(_) => "panic".to_owned(),
+            };
+            // oracle: the batch's routing token is the token of the FIRST row under the FIRST statement (if prepared)
+            let expected = match (&first, rows.first()) {
+                (Some((_, ps)), Some(_)) => {
+                    let r = catch_unwind(AssertUnwindSafe(|| ps.calculate_token(&bound[0])));
+                    match r {
+                        Ok(Ok(Some(t))) => format!("ok:{}", t.value()),
+                        Ok(Ok(None)) => "none".to_owned(),
+                        Ok(Err(PartitionKeyError::Serialization(_))) => "err:serialization".to_owned(),
+                        Ok(Err(PartitionKeyError::PartitionKeyExtraction(_))) => "err:pkExtraction".to_owned(),
+                        Ok(Err(PartitionKeyError::TokenCalculation(TokenCalculationError::ValueTooLong(n)))) => format!("err:tooLong:{}", n),
+                        Ok(Err(_)) => "err:other".to_owned(),
+                        Err(_) => "panic".to_owned(),
+                    }
+                }
+                _ => "none".to_owned(),
+            };
+            if shown != expected {
+                ctx.fail(format!(
+                    "batch routing token {} is not the token {} of the first row under the first statement",
+                    shown, expected
+                ));
+            }
+            // and, for a fully bound well-formed first row, the server-side token of its key
+            if let (Some((cdc, ps)), Some(row)) = (&first, rows.first()) {
+                let pk = ps.get_variable_pk_indexes();
+                let mut by_seq: Vec<(u16, u16)> = pk.iter().map(|p| (p.sequence, p.index)).collect();
+                by_seq.sort_unstable();
+                let comps: Option<Vec<&[u8]>> = by_seq
+                    .iter()
+                    .map(|(_, ix)| match row.get(*ix as usize) {
+                        Some(Val::Bytes(b)) => Some(b.as_slice()),
+                        _ => None,
+                    })
+                    .collect();
+                if let Some(comps) = comps {
+                    let distinct = { let mut s: Vec<u16> = by_seq.iter().map(|x| x.1).collect(); s.sort_unstable(); s.dedup(); s.len() == by_seq.len() };
+                    let small = comps.len() == 1 || comps.iter().all(|c| c.len() <= 65535);
+                    if !comps.is_empty() && distinct && small && row.len() == ps.get_variable_col_specs().len() {
+                        if let Some(t) = server_token(*cdc, &reference_encode(&comps)) {
+                            if shown != format!("ok:{}", t) {
+                                ctx.fail(format!("batch routing token {} differs from the server-side token {} of the first row's key", shown, t));
+                            }
+                        }
+                    }
+                }
+            }
+            // the model prints extraction errors by kind
+            match shown.as_str() {
+                "err:pkExtraction" => match first.as_ref().map(|(_, ps)| ps.calculate_token(&bound[0])) {
+                    Some(Err(PartitionKeyError::PartitionKeyExtraction(PartitionKeyExtractionError::NoPkIndexValue(i, c)))) => {
+                        format!("err:noPk:{}:{}", i, c)
+                    }
+                    _ => shown,
+                },
+                _ => shown,
             }
         }
         ("sesspart", _) => crate::e2e::partitioner::run(&w[1..], ctx),
